@@ -46,6 +46,9 @@ pub struct Replay {
     pub ds: Vec<u64>,
     pub log_hash: u64,
     pub minimised: bool,
+    /// no decision script: re-run from the seed (used when the run killed the worker process)
+    #[serde(default)]
+    pub rng_seed: Option<u64>,
 }
 
 pub fn rle(ts: &[u8]) -> Vec<(u8, u32)> {
@@ -272,10 +275,36 @@ pub fn write_replay(prop: &str, seed: u64, index: u64, d: &RunData, vio: &Violat
         ds: d.outcome.ds.clone(),
         log_hash: d.outcome.log_hash,
         minimised,
+        rng_seed: None,
     };
     let dir = format!("{}/replays", base_dir());
     let _ = std::fs::create_dir_all(&dir);
     let path = format!("{}/{}-{}-{}-{}.json", dir, prop, sanitize(&vio.sig), seed, index);
+    std::fs::write(&path, serde_json::to_string_pretty(&rp).unwrap()).expect("write replay");
+    path
+}
+
+pub fn write_crash_replay(prop: &str, seed: u64, index: u64, tier: &str) -> String {
+    let rs = run_seed(seed, prop, index);
+    let case = check::make_case(prop, rs, index, tier);
+    let rp = Replay {
+        version: 1,
+        property: prop.to_string(),
+        signature: "crash/process-died".into(),
+        detail: "the worker process died while executing this run".into(),
+        engine: "ksim".into(),
+        seed,
+        index,
+        case,
+        ts: vec![],
+        ds: vec![],
+        log_hash: 0,
+        minimised: false,
+        rng_seed: Some(mix(rs, 0xE)),
+    };
+    let dir = format!("{}/replays", base_dir());
+    let _ = std::fs::create_dir_all(&dir);
+    let path = format!("{}/{}-crash-{}-{}.json", dir, prop, seed, index);
     std::fs::write(&path, serde_json::to_string_pretty(&rp).unwrap()).expect("write replay");
     path
 }
@@ -319,10 +348,12 @@ pub fn cmd_worker(args: &[String]) -> i32 {
     0
 }
 
-/// placeholder: minimisation is implemented in shrink.rs (later); identity for now
-pub fn minimise(_prop: &str, d: &RunData, vio: &Violation) -> (RunData, Violation, bool) {
-    let d2 = execute(&d.case, Source::Script { ts: d.outcome.ts.clone(), ds: d.outcome.ds.clone(), strict: true });
-    (d2, vio.clone(), false)
+pub fn minimise(prop: &str, d: &RunData, vio: &Violation) -> (RunData, Violation, bool) {
+    if std::env::var("VERIF_NO_SHRINK").is_ok() {
+        let d2 = execute(&d.case, Source::Script { ts: d.outcome.ts.clone(), ds: d.outcome.ds.clone(), strict: true });
+        return (d2, vio.clone(), false);
+    }
+    crate::shrink::minimise(prop, d, vio)
 }
 
 #[derive(Deserialize, Clone, Debug)]
@@ -370,6 +401,7 @@ pub fn cmd_check(prop: &str, tier: &str) -> i32 {
     let mut total = WStats::default();
     let mut vios: Vec<Value> = Vec::new();
     let mut harness_err = false;
+    let mut crashes = 0u64;
     let mut results: Vec<(u64, String)> = Vec::new();
     // one reader thread per worker process; the driver waits on a channel with a watchdog
     enum Msg {
@@ -422,8 +454,22 @@ pub fn cmd_check(prop: &str, tier: &str) -> i32 {
                 if let Some((_, cnt, _, last)) = running.remove(&st) {
                     let got = results.iter().any(|r| r.0 == st);
                     if !ok || !got {
-                        eprintln!("harness error: worker for runs {}..{} died (last run started: {}); replay it with `ksim one {} {} {}`", st, st + cnt, last, prop, seed, last);
-                        harness_err = true;
+                        // the simulated system killed the worker process (memory corruption, abort): that run is
+                        // reported as a violation with a seed-based replay, the rest of the chunk goes to a new worker
+                        crashes += 1;
+                        if crashes <= 40 {
+                            let path = write_crash_replay(prop, seed, last, &tier);
+                            vios.push(json!({"index": last, "sig": "crash/process-died", "detail": format!("the worker process died while executing run {} (signal or abort inside the simulated system)", last), "replay": path}));
+                            if last + 1 < st + cnt {
+                                pending.push((last + 1, st + cnt - (last + 1)));
+                            }
+                        } else {
+                            // the verdict is already a violation: do not start further work
+                            if !pending.is_empty() {
+                                eprintln!("note: {} worker deaths; the remaining {} chunks are not run", crashes, pending.len());
+                                pending.clear();
+                            }
+                        }
                     }
                 }
             }
@@ -471,7 +517,12 @@ pub fn cmd_check(prop: &str, tier: &str) -> i32 {
         // re-verify the replay in a fresh process
         let out = Command::new(&exe).args(["replay", replay]).output().expect("replay");
         let txt = String::from_utf8_lossy(&out.stdout).to_string();
-        let confirmed = out.status.code() == Some(1) && txt.contains(&format!("signature={}", sig));
+        let died = out.status.code().is_none() || out.status.code().map_or(false, |c| c > 2);
+        let confirmed = (out.status.code() == Some(1) && txt.contains("VIOLATION property=")) || (sig == "crash/process-died" && died);
+        let fresh_sig = txt.lines().find_map(|l| l.trim().strip_prefix("signature=")).unwrap_or("").to_string();
+        if confirmed && fresh_sig != sig {
+            println!("note: in a fresh process the replay reports `{}` (worker: `{}`): the run reads memory whose content is not defined", fresh_sig, sig);
+        }
         if !confirmed {
             eprintln!("harness error: replay {} did not reproduce `{}` in a fresh process:\n{}", replay, sig, txt);
             harness_err = true;
@@ -494,14 +545,13 @@ pub fn cmd_check(prop: &str, tier: &str) -> i32 {
         known_hits.len(),
         total.inconclusive
     );
+    if n_viol > 0 {
+        return 1;
+    }
     if harness_err {
         return 2;
     }
-    if n_viol > 0 {
-        1
-    } else {
-        0
-    }
+    0
 }
 
 fn write_evidence(def: &check::CheckDef, prop: &str, tier: &str, seed: u64, runs: u64, workers: u64, t: &WStats, wall: f64, n_viol: u64, known_hits: &[String]) {
@@ -578,7 +628,11 @@ pub fn cmd_replay(path: &str) -> i32 {
             return 2;
         }
     };
-    let d = execute(&rp.case, Source::Script { ts: unrle(&rp.ts), ds: rp.ds.clone(), strict: true });
+    let src = match rp.rng_seed {
+        Some(s) => Source::Rng(s),
+        None => Source::Script { ts: unrle(&rp.ts), ds: rp.ds.clone(), strict: true },
+    };
+    let d = execute(&rp.case, src);
     if let Some(rt::exec::Abort::Diverged(m)) = &d.outcome.abort {
         println!("replay diverged: {}", m);
         return 2;
